@@ -445,3 +445,44 @@ def taint_flows(func):
                 real = [a for a in args if not a.get("dflt")]
                 if real and arg_is_tainted(real[0], tv):
                     yield e, "std::string(const char*%s)" % (", n" if len(real) >= 2 else ""), real[0].get("t"), len(real) >= 2
+
+
+# ---------- lock re-entrancy (self-deadlock on a non-recursive mutex) ----------
+
+def reentrant_acquisitions(prog, func, mutex_field, extra_targets=None, max_depth=40):
+    """Call sites in `func` made while holding a guard on this-><mutex_field> from which a function that acquires the same member mutex
+    (of `this`) is reachable.  extra_targets(ev) -> list of functions for indirect calls (std::function callbacks).
+    Returns list of (call_event, chain, acquiring_event)."""
+    ls = locksets(func, lam_unlocks=lambda_unlocks(prog, func))
+    out = []
+    acquirers = {}
+
+    def acquires(f):
+        if f.id not in acquirers:
+            acquirers[f.id] = [d for d in f.events("decl") if (guard_of_decl(d) or (None, None, None))[1] == mutex_field and (guard_of_decl(d) or (None, None, ""))[2] == "this"]
+        return acquirers[f.id]
+    for e in func.events("call"):
+        sts = ls.get((e.block, e.idx)) or []
+        if not sts or not all(any(m == mutex_field and b == "this" for (_v, m, b) in st) for st in sts):
+            continue
+        targets = list(prog.resolve_call(e)) + (extra_targets(e) if extra_targets else [])
+        seen = set()
+        work = [(t, ["%s calls %s at %s" % (func.name, t.name, e.loc)]) for t in targets]
+        while work:
+            g, chain = work.pop()
+            if g.id in seen or len(chain) > max_depth:
+                continue
+            seen.add(g.id)
+            acq = acquires(g)
+            if acq:
+                out.append((e, chain, acq[0]))
+                break
+            for c in g.events(("call", "construct")):
+                if c["k"] == "construct":
+                    hs = [prog.funcs[c["cid"]]] if c.get("cid") in prog.funcs else []
+                else:
+                    hs = list(prog.resolve_call(c)) + (extra_targets(c) if extra_targets else [])
+                for h in hs:
+                    if h.id not in seen:
+                        work.append((h, chain + ["%s calls %s at %s" % (g.name, h.name, c.loc)]))
+    return out
